@@ -903,35 +903,53 @@ func c03lJoin(l []string) string {
 	return strings.Join(l, ",")
 }
 
-func (r *c03lRun) snapshot(tag string) {
+type c03lSnapshot struct {
+	l, r [2]c03lCommit // local / remote commitment of A, B
+	pend [2]bool
+}
+
+// take reads both channel states (each one atomically).
+func (r *c03lRun) take() c03lSnapshot {
+	var sn c03lSnapshot
 	for i, st := range []*cstate.OpenChannel{r.link.channel.State(), r.bob.State()} {
-		l, rm, pend := c03lSnap(st)
+		sn.l[i], sn.r[i], sn.pend[i] = c03lSnap(st)
+	}
+	return sn
+}
+
+func (r *c03lRun) snapshot(tag string, sn c03lSnapshot) {
+	for i := 0; i < 2; i++ {
 		p := 0
-		if pend {
+		if sn.pend[i] {
 			p = 1
 		}
 		r.emit(tag+" %s lh=%d rh=%d pend=%d ll=%d lr=%d rl=%d rr=%d lhtlcs=%s rhtlcs=%s\n",
-			string(rune('A'+i)), l.h, rm.h, p, l.lb, l.rb, rm.lb, rm.rb, c03lJoin(l.htlcs),
-			c03lJoin(rm.htlcs))
+			string(rune('A'+i)), sn.l[i].h, sn.r[i].h, p, sn.l[i].lb, sn.l[i].rb, sn.r[i].lb,
+			sn.r[i].rb, c03lJoin(sn.l[i].htlcs), c03lJoin(sn.r[i].htlcs))
 	}
 }
 
-// quiet: nothing in flight, nobody owes anything, both chains agree.
-func (r *c03lRun) quiet() bool {
+// quiet: nothing in flight, nobody owes anything, both chains agree.  The
+// snapshot returned is the (atomic) read of Alice's state the verdict is based
+// on: the monitor's mirror check is evaluated on exactly that state.
+func (r *c03lRun) quiet() (bool, c03lSnapshot) {
+	var none c03lSnapshot
 	if len(r.bobOut) != 0 || len(r.aIn) != 0 || len(r.peer.sentMsgs) != 0 || !r.bobSynced ||
 		!r.link.isReestablished() {
 
-		return false
+		return false, none
 	}
 	if r.mailboxLen() != 0 || r.bob.OweCommitment() || r.link.channel.OweCommitment() {
-		return false
+		return false, none
 	}
-	al, ar, ap := c03lSnap(r.link.channel.State())
-	bl, br, bp := c03lSnap(r.bob.State())
-	if ap || bp {
-		return false
+	sn := r.take()
+	if sn.pend[0] || sn.pend[1] {
+		return false, none
 	}
-	return al.h == br.h && ar.h == bl.h
+	if len(r.peer.sentMsgs) != 0 {
+		return false, none
+	}
+	return sn.l[0].h == sn.r[1].h && sn.r[0].h == sn.l[1].h, sn
 }
 
 // drain runs the resumed exchange to the end: everything is delivered, Bob
@@ -956,12 +974,12 @@ func (r *c03lRun) drain() {
 			r.bobSign()
 		}
 		r.toAlice(len(r.bobOut), false)
-		if r.quiet() {
+		if ok, sn := r.quiet(); ok {
 			calm++
 			if calm >= 3 {
 				r.emit("Q => ok\n")
 				r.stats["quiescent"]++
-				r.snapshot("S")
+				r.snapshot("S", sn)
 				return
 			}
 			time.Sleep(3 * time.Millisecond)
@@ -980,7 +998,7 @@ func (r *c03lRun) drain() {
 					len(r.bobOut), len(r.aIn), r.mailboxLen(), r.bob.OweCommitment(),
 					r.link.channel.OweCommitment())
 				r.stats["quiesce_timeout"]++
-				r.snapshot("SX") // diagnostic only
+				r.snapshot("SX", r.take()) // diagnostic only
 				r.dead = true
 			}
 			return
